@@ -216,9 +216,9 @@ type blin struct {
 type bcond struct {
 	two    bool // a second premise a2 <= b2 must hold as well
 	a2, b2 blin
-	a, b  blin
-	then  [][2]blin // each pair: [0] <= [1]
-	fired bool
+	a, b   blin
+	then   [][2]blin // each pair: [0] <= [1]
+	fired  bool
 }
 
 // bsum: v = x + y (sub: v = x - y), both operands non-constant.
@@ -1327,6 +1327,15 @@ func (p *bndProver) saturate(terms ...blin) {
 		p.touch(t.n)
 	}
 	p.drain()
+	// two values defined as the same sum or difference are equal (n := len(s) - k and len(s[k:]))
+	for i := 0; i < len(p.sums); i++ {
+		for j := i + 1; j < len(p.sums); j++ {
+			a, b := p.sums[i], p.sums[j]
+			if a.v != b.v && a.sub == b.sub && a.x == b.x && a.y == b.y {
+				p.eq(blin{n: a.v}, blin{n: b.v})
+			}
+		}
+	}
 	for round := 0; round < 6; round++ {
 		if !p.derive() {
 			break
@@ -1492,9 +1501,24 @@ func runBND(c *Ctx, r *Result, rule string, fns []*ssa.Function, reach *Reach, r
 		}
 		var unexcused []string
 		for _, m := range missing {
-			if !hasExc || !strings.Contains(" "+exc.parts+" ", " "+m+" ") {
-				unexcused = append(unexcused, m)
+			if hasExc && strings.Contains(" "+exc.parts+" ", " "+m+" ") {
+				continue
 			}
+			// the entry was written for another spelling of the construct (s[k+i] became a
+			// range over s[k:]): "the offset stays within the container" is one claim, whether
+			// it shows as index<len, high<=len or low<=high; likewise for the lower side
+			if hasExc && matched != full {
+				covered := false
+				for _, part := range strings.Fields(exc.parts) {
+					if bndPartClass(part) == bndPartClass(m) && bndPartClass(m) != "" {
+						covered = true
+					}
+				}
+				if covered {
+					continue
+				}
+			}
+			unexcused = append(unexcused, m)
 		}
 		needsOK := true
 		if hasExc && exc.needs != "" {
@@ -1601,6 +1625,7 @@ type bndMem struct {
 	mutableField map[string]bool // "pkg.T.i": some store to the field goes through a non-local object, or its address escapes
 	wholeStored  map[string]bool // named struct types assigned as a whole through a pointer
 	mutableGlob  map[*ssa.Global]bool
+	repsAll      map[*ssa.Function]map[string][]ssa.Value
 	reps         map[*ssa.Function]map[string]ssa.Value
 	local        map[ssa.Value]ssa.Value // re-reads of a mutable field with no write in between
 }
@@ -1773,33 +1798,44 @@ func (c *Ctx) canon(v ssa.Value) ssa.Value {
 	}
 	f := ins.Parent()
 	m := c.bndMemory()
-	reps := m.reps[f]
-	if reps == nil {
-		reps = map[string]ssa.Value{}
-		m.reps[f] = reps
+	all := m.repsAll[f]
+	if all == nil {
+		all = map[string][]ssa.Value{}
+		if m.repsAll == nil {
+			m.repsAll = map[*ssa.Function]map[string][]ssa.Value{}
+		}
+		m.repsAll[f] = all
 		for _, b := range f.Blocks {
 			for _, i := range b.Instrs {
 				if val, ok := i.(ssa.Value); ok {
 					if kk := c.memKey(val, 0); kk != "" {
-						if _, have := reps[kk]; !have {
-							reps[kk] = val
-						}
+						all[kk] = append(all[kk], val)
 					}
 				}
 			}
 		}
 	}
-	if r, ok := reps[k]; ok {
+	// the representative is a read of the same unchanging location that is executed before v on
+	// every path (block order is not execution order: a loop header comes after the body), and
+	// among those one that has no earlier read itself
+	best := v
+	for _, r := range all[k] {
 		if r == v {
-			return r
+			continue
 		}
-		// the representative must be executed before v on every path, so that the two are
-		// instances read within the same span in which the location does not change
-		if ri, ok := r.(ssa.Instruction); ok && instrBefore(ri, ins) {
-			return r
+		ri, ok := r.(ssa.Instruction)
+		if !ok || !instrBefore(ri, ins) {
+			continue
+		}
+		if best == v {
+			best = r
+			continue
+		}
+		if bi, ok := best.(ssa.Instruction); ok && instrBefore(ri, bi) {
+			best = r
 		}
 	}
-	return v
+	return best
 }
 
 // rereadCanon: v loads a struct field that may change during an evaluation; its representative is
@@ -2716,4 +2752,14 @@ func (c *Ctx) warmSummaries(f *ssa.Function, seen map[*ssa.Function]bool) {
 			}
 		}
 	}
+}
+
+func bndPartClass(part string) string {
+	switch part {
+	case "index<len", "high<=len", "low<=high":
+		return "upper"
+	case "index>=0", "low>=0":
+		return "lower"
+	}
+	return ""
 }
